@@ -18,6 +18,7 @@ func init() {
 	ops["dec2"] = opDec2
 	ops["dec2x"] = opDec2x
 	ops["enc"] = opEnc
+	ops["enc2"] = opEnc2
 	ops["rt4"] = opRt4
 	ops["canon"] = opCanon
 	ops["encnone"] = func([]string) string {
@@ -575,6 +576,46 @@ func opSenc(args []string) string {
 	out, err := encodeBuilt("msg", args[0], nil, body, nil)
 	if err != nil {
 		return "err"
+	}
+	return "ok " + hexs(out)
+}
+
+// enc2 <fam> hdr=<hex> <Msg> <fields> <StaleMsg> <staleFields>: the Message also holds the body of another message of the same
+// family (an object that was used for an earlier message and then given a new header type and body): the encoders dispatch on
+// the header's message type
+func opEnc2(args []string) string {
+	if len(args) != 6 || !strings.HasPrefix(args[1], "hdr=") || (args[0] != "gmm" && args[0] != "gsm") || args[2] == args[4] {
+		return "bad-op"
+	}
+	hdr, ok1 := unhex(args[1][4:])
+	fs, ok2 := parseFields(args[3])
+	sfs, ok3 := parseFields(args[5])
+	if !ok1 || !ok2 || !ok3 {
+		return "bad-op"
+	}
+	m, body, ok := buildMessage(args[0], hdr, args[2], fs)
+	spt, oks := msgTypes[args[4]]
+	if !ok || !oks {
+		return "bad-op"
+	}
+	stale, ok := buildBody(spt, sfs)
+	if !ok {
+		return "bad-op"
+	}
+	var fam reflect.Value
+	if args[0] == "gmm" {
+		fam = reflect.ValueOf(m.GmmMessage).Elem()
+	} else {
+		fam = reflect.ValueOf(m.GsmMessage).Elem()
+	}
+	f := fam.FieldByName(args[4])
+	if !f.IsValid() {
+		return "bad-op"
+	}
+	f.Set(stale)
+	out, err := encodeBuilt(args[0], args[2], m, body, nil)
+	if err != nil {
+		return "err " + errClass(err)
 	}
 	return "ok " + hexs(out)
 }
